@@ -22,7 +22,9 @@ import (
 	"time"
 )
 
-const repoRoot = "/repo"
+// repoRoot is the tree under test; VERIF_REPO overrides it (scratch worktrees for
+// sensitivity experiments). Registered commands always use /repo.
+var repoRoot = "/repo"
 const modulePath = "github.com/WuKongIM/WuKongIM"
 
 type unitSpec struct {
@@ -111,6 +113,9 @@ func main() {
 	args := reorderArgs(os.Args[1:])
 	if err := flag.CommandLine.Parse(args); err != nil {
 		os.Exit(2)
+	}
+	if v := os.Getenv("VERIF_REPO"); v != "" {
+		repoRoot = filepath.Clean(v)
 	}
 	checks := loadChecks()
 	setupGoEnv()
@@ -697,14 +702,18 @@ func decide(id string, spec checkSpec, tier string, seed uint64, results []*unit
 	seenSig := map[string]bool{}
 	if len(fresh) > 0 {
 		verdict = 1
-		os.MkdirAll(filepath.Join(verifRoot, "replays"), 0o755)
+		rpDir := filepath.Join(verifRoot, "replays")
+		if v := os.Getenv("VERIF_REPLAY_DIR"); v != "" {
+			rpDir = v
+		}
+		os.MkdirAll(rpDir, 0o755)
 		k := 0
 		for _, v := range fresh {
 			if seenSig[v.Sig] {
 				continue
 			}
 			seenSig[v.Sig] = true
-			p := filepath.Join(verifRoot, "replays", fmt.Sprintf("%s-%d-%d.json", id, seed, k))
+			p := filepath.Join(rpDir, fmt.Sprintf("%s-%d-%d.json", id, seed, k))
 			k++
 			rb, _ := json.MarshalIndent(map[string]any{"property": id, "seed": seed, "tier": tier, "case": v.Case, "case_desc": v.CaseDesc,
 				"unit": v.Unit, "sig": v.Sig, "witness": v.Witness,
@@ -759,8 +768,12 @@ func decide(id string, spec checkSpec, tier string, seed uint64, results []*unit
 		"violations":  len(fresh),
 	}
 	eb, _ := json.MarshalIndent(ev, "", " ")
-	os.MkdirAll(filepath.Join(verifRoot, "evidence"), 0o755)
-	os.WriteFile(filepath.Join(verifRoot, "evidence", id+".json"), append(eb, '\n'), 0o644)
+	evDir := filepath.Join(verifRoot, "evidence")
+	if v := os.Getenv("VERIF_EVIDENCE_DIR"); v != "" {
+		evDir = v
+	}
+	os.MkdirAll(evDir, 0o755)
+	os.WriteFile(filepath.Join(evDir, id+".json"), append(eb, '\n'), 0o644)
 	if verdict == 0 {
 		fmt.Fprintf(out, "HELD property=%s tier=%s seed=%d evaluations=%d distinct_nontrivial=%d wall=%.0fs\n", id, tier, seed, evals, distinct, time.Since(start).Seconds())
 	}
